@@ -106,7 +106,7 @@ class Interp:
         self.ti_base = {}
         self.symcount = 0
         self.opaque_fp = False
-        self.concrete_inputs = None
+        self.concrete_inputs = None; self.model = None; self.pending_obl = []; self.path_obl = 0
         self.reached = {}
         self.inputs = {}; self.observations = []
 
@@ -149,6 +149,7 @@ class Interp:
         if isinstance(c, Sym): c = self.boolof(c)
         elif not z3.is_expr(c): c = z3.BoolVal(bool(c))
         self.pc.append(c); self.solver.add(c)
+        if self.model is not None and not z3.is_true(self.model.eval(c, model_completion=True)): self.model = None
 
     def assume_feasible(self, c):
         """assume c; end the path silently if that makes it infeasible"""
@@ -198,6 +199,24 @@ class Interp:
             e = Finding(kind, msg)
             if z3.is_false(cond): self.check()
             e.model = self.solver.model(); raise e
+
+    def defer_obligation(self, cond, kind, msg):
+        """UB-style side condition (no overflow, ...): collected and discharged with ONE query when the path ends.
+        Sound per path: every input of the completed path satisfies the path condition at the point of the operation."""
+        if getattr(self, 'native', False): return
+        self.path_obl += 1; self.stats['obligations'] = self.stats.get('obligations', 0) + 1
+        self.pending_obl.append((cond, kind, msg))
+        if len(self.pending_obl) >= 256: self.flush_obligations()
+
+    def flush_obligations(self):
+        po = self.pending_obl; self.pending_obl = []
+        if not po: return
+        if self.check(z3.Not(z3.And([c for c, _, _ in po]))):
+            mdl = self.solver.model()
+            for c, kind, msg in po:
+                if not z3.is_true(mdl.eval(c, model_completion=True)):
+                    e = Finding(kind, msg); e.model = mdl; raise e
+            raise Unsupported('deferred obligation failed but no conjunct is false in the model')
 
     # ------------------------------------------------------------ memory
     def new_obj(self, size, name, kind):
@@ -408,25 +427,28 @@ class Interp:
                 return Sym(x - (W - b), n, alo - (W - b), ahi - (W - b))
             if 'nsw' in flags:
                 r = f(self.signed_t(x, n), self.signed_t(y, n))
-                self.obligation(z3.And(r >= -(W >> 1), r < (W >> 1)), 'signed-overflow', '%s nsw i%d' % (op, n))
-                self.assume(z3.And(r >= -(W >> 1), r < (W >> 1)))
+                self.defer_obligation(z3.And(r >= -(W >> 1), r < (W >> 1)), 'signed-overflow', '%s nsw i%d' % (op, n))
                 return Sym(self.canon_t(r, n), n)
             r = f(x, y)
             if 'nuw' in flags:
-                self.obligation(z3.And(r >= 0, r < W), 'unsigned-overflow', '%s nuw i%d' % (op, n))
-                self.assume(z3.And(r >= 0, r < W)); return Sym(r, n)
+                self.defer_obligation(z3.And(r >= 0, r < W), 'unsigned-overflow', '%s nuw i%d' % (op, n))
+                return Sym(r % W, n)
             return Sym(r % W, n)
         if not isinstance(b, Sym):
             if op == 'and':
                 if b & (b + 1) == 0:
                     if ahi <= b: return Sym(x, n, alo, ahi)
+                    if alo // (b + 1) == ahi // (b + 1):          # interval inside one period: exact, no mod
+                        q = alo // (b + 1); return Sym(x - q * (b + 1), n, alo - q * (b + 1), ahi - q * (b + 1))
                     return Sym(x % (b + 1), n, 0, b)              # low mask
                 inv = (~b) & mask(n)
                 if inv & (inv + 1) == 0: return Sym(x - (x % (inv + 1)), n)   # clear low bits
             if op == 'shl': return Sym((x * (1 << b)) % W, n) if b < n else 0
             if op == 'lshr': return Sym(x / (1 << b), n, alo >> b, ahi >> b) if b < n else 0
             if op == 'udiv': return Sym(x / b, n, alo // b, ahi // b)
-            if op == 'urem': return Sym(x % b, n, 0, min(ahi, b - 1))
+            if op == 'urem':
+                if alo // b == ahi // b: return Sym(x - (alo // b) * b, n, alo % b, ahi % b)
+                return Sym(x % b, n, 0, min(ahi, b - 1))
             if op in ('sdiv', 'srem'):
                 sb = tosigned(b, n)
                 if sb <= 0: raise Unsupported('INT: sdiv by non-positive const')
@@ -508,12 +530,25 @@ class Interp:
             d = self.prefix[self.dpos]; self.dpos += 1
             self.assume(c if d else z3.Not(c)); self.trace.append(d); self.refine(cond, d)
             return d
-        t = self.check(c); f = self.check(z3.Not(c))
+        # model cache: a model of the current path condition decides one side for free
+        mv = None
+        if self.model is not None:
+            ev = self.model.eval(c, model_completion=True)
+            mv = True if z3.is_true(ev) else (False if z3.is_false(ev) else None)
+        if mv is None:
+            t = self.check(c)
+            if t: self.model = self.solver.model(); f = self.check(z3.Not(c)); mt = self.model; mf = self.solver.model() if f else None
+            else: f = self.check(z3.Not(c)); mt = None; mf = self.solver.model() if f else None
+        elif mv:
+            t = True; mt = self.model; f = self.check(z3.Not(c)); mf = self.solver.model() if f else None
+        else:
+            f = True; mf = self.model; t = self.check(c); mt = self.solver.model() if t else None
         if t and f:
             self.work.append(self.trace + [False]); d = True
         elif t: d = True
         elif f: d = False
         else: raise PathEnd()
+        self.model = mt if d else mf
         self.dpos += 1; self.prefix = self.trace + [d]
         self.trace.append(d)
         self.assume(c if d else z3.Not(c)); self.refine(cond, d)
@@ -891,9 +926,12 @@ class Interp:
             self.pc = []; self.solver.push()
             self.objs = [Obj(0, 'null', 'null')]; self.gaddrs = {}; self.fnaddr = {}; self.tids = {}; self.caught = []
             self.inflight = None; self.symcount = 0; self.path_steps = 0; self.path_ops = set()
-            self.inputs = {}; self.observations = []; self.path_obl = 0
+            self.inputs = {}; self.observations = []; self.path_obl = 0; self.pending_obl = []; self.model = None
             try:
-                harness(self)
+                try:
+                    harness(self)
+                finally:
+                    if self.pending_obl and sys.exc_info()[0] is not PathEnd: self.flush_obligations()
                 st['paths'] += 1
                 if self.path_obl: st['obl_paths'] += 1
                 if len(st['samples']) < 3 and self.inputs:
